@@ -10,8 +10,8 @@
    PARTIAL: "changing decision point / time / additional key / seed yields an UNRELATED set of draws" is a
    statistical statement about SHA-1 and MT19937, which are not modelled.  What is proved is that such a change
    always changes the string that reaches SHA-1 (C02_seedkey_single_change) and when two arbitrary seed keys can alias
-   (C02_seedkey_injective_partial and the two _refuted witnesses); the check adds the at-most-2-of-200 coincidence
-   test on the real streams.                                                                                     *)
+   (C02_seedkey_injective_partial, C02_manager_seed_injective_guarded - the exact guard excluding open finding F-O -
+   and the two _refuted witnesses); the check adds the at-most-2-of-48 coincidence test on the real streams.                                                                                     *)
 From Viv Require Import Common Stream StreamProofs.
 From Coq Require Import Permutation.
 Local Open Scope Z_scope.
@@ -102,8 +102,21 @@ Proof.
   split; [discriminate | reflexivity].
 Qed.
 
-(* finding F-O: the manager concatenates str(random_seed) and str(additional_seed) without a separator, so
-   (random_seed, additional_seed) = (1, 23) and (12, 3) carry the same seed "123" - identical draws everywhere *)
+(* finding F-O (open): the manager concatenates str(random_seed) and str(additional_seed) without a separator.
+   The concatenation IS injective on configurations whose random seeds have equally long strings - the exact guard
+   that excludes the finding class - and two configurations can alias only if one random seed's string is a proper
+   prefix of the other's (None and "" are the same additional seed). *)
+Theorem C02_manager_seed_injective_guarded : forall r1 a1 r2 a2, length r1 = length r2 ->
+  manager_seed r1 a1 = manager_seed r2 a2 -> r1 = r2 /\ optstr a1 = optstr a2.
+Proof. exact manager_seed_injective_guarded. Qed.
+
+Theorem C02_manager_seed_alias_is_prefix : forall r1 a1 r2 a2,
+  manager_seed r1 a1 = manager_seed r2 a2 -> (length r1 <= length r2)%nat ->
+  exists t, r2 = r1 ++ t /\ optstr a1 = t ++ optstr a2.
+Proof. exact manager_seed_alias_prefix. Qed.
+
+(* ... and the unguarded statement is false: (random_seed, additional_seed) = (1, 23) and (12, 3) carry the same
+   seed "123" - identical draws everywhere *)
 Theorem C02_seed_concat_alias_refuted : exists r1 a1 r2 a2,
   (r1, a1) <> (r2, a2) /\ manager_seed r1 (Some a1) = manager_seed r2 (Some a2).
 Proof. exists [49], [50; 51], [49; 50], [51]. split; [discriminate | reflexivity]. Qed.
@@ -131,6 +144,10 @@ Proof.
   split; [|vm_compute; reflexivity]. simpl. repeat split; auto.
   intros l p H. cbn [zassoc] in *. destruct (0 =? l); [assumption|]. destruct (1 =? l); [assumption | discriminate H].
 Qed.
+Example demo_seed_guard :
+  manager_seed [49; 50] (Some [51]) = [49; 50; 51] /\ manager_seed [57; 57] None = [57; 57] /\
+  manager_seed [49; 50] (Some [51]) <> manager_seed [57; 57] (Some [51]).
+Proof. repeat split. discriminate. Qed.
 Example demo_single_change :
   differ_in_one {| sk_key := [97]; sk_clock := [99]; sk_addl := [78]; sk_seed := [48] |}
                 {| sk_key := [97]; sk_clock := [99]; sk_addl := [49]; sk_seed := [48] |} = true.
@@ -149,4 +166,6 @@ Print Assumptions C02_distinct_positions.
 Print Assumptions C02_seedkey_single_change.
 Print Assumptions C02_seedkey_injective_partial.
 Print Assumptions C02_seedkey_alias_refuted.
+Print Assumptions C02_manager_seed_injective_guarded.
+Print Assumptions C02_manager_seed_alias_is_prefix.
 Print Assumptions C02_seed_concat_alias_refuted.
